@@ -35,7 +35,7 @@ fn tiny_spec(run_seed: u64) -> PipeSpec {
         let n = r.range(0, 3);
         let mut calls: Vec<(u32, u8)> = (0..n).map(|_| (r.below(total + 1) as u32, r.below(2) as u8)).collect();
         calls.sort();
-        s.api = Some(pipeline::ApiPlan { calls, concatenated: r.pct(50), adaptive: r.pct(20), interleave_seed: None });
+        s.api = Some(pipeline::ApiPlan { calls, concatenated: r.pct(50), adaptive: r.pct(20), interleave_seed: None, empty_contigs_before: Vec::new() });
     }
     if r.pct(25) {
         s.faults = pipeline::BenignFaults {
